@@ -183,6 +183,105 @@ fn cyclic_programs() -> Vec<Vec<u8>> {
         .collect()
 }
 
+/// Straight-line programs whose storage locations feed each other: `sstore(loc(b), part(sload(loc(a))))` over
+/// a handful of base slots, where a location is the slot itself, an element of the dynamic array or of
+/// the mapping rooted at it, or the second word of such a mapping element.  With few base slots the type
+/// evidence is cyclic in every way the constructors allow (T = T[], T = mapping(k => T), T inside its
+/// own packed field, and cycles through several slots).
+pub fn cyclic_dataflow(rng: &mut StdRng) -> Vec<u8> {
+    fn loc(rng: &mut StdRng, c: &mut Vec<u8>, nslots: u8) {
+        let slot = rng.gen_range(0..nslots);
+        match rng.gen_range(0..8) {
+            0..=2 => c.extend([0x60, slot]),
+            3 | 4 => c.extend([0x60, slot, 0x60, 0x00, 0x52, 0x60, 0x20, 0x60, 0x00, 0x20, 0x60, 0x04, 0x35, 0x01]),
+            _ => {
+                c.extend([0x60, 0x00, 0x35, 0x60, 0x00, 0x52, 0x60, slot, 0x60, 0x20, 0x52, 0x60, 0x40, 0x60, 0x00, 0x20]);
+                if rng.gen_bool(0.3) {
+                    c.extend([0x60, 0x01, 0x01]);
+                }
+            }
+        }
+    }
+    let nslots = rng.gen_range(1..4u8);
+    let mut c: Vec<u8> = Vec::new();
+    for _ in 0..rng.gen_range(1..5) {
+        loc(rng, &mut c, nslots);
+        c.push(0x54);
+        for _ in 0..rng.gen_range(1..3) {
+            c.push(0x80);
+            match rng.gen_range(0..6) {
+                0..=2 => {}
+                3 => c.extend([0x60, 8 * rng.gen_range(0..20u8), 0x1c, 0x60, 0xff, 0x16]),
+                4 => {
+                    c.push(0x73);
+                    c.extend([0xff; 20]);
+                    c.push(0x16);
+                }
+                _ => c.extend([0x60, 8 * rng.gen_range(1..20u8), 0x1b]),
+            }
+            loc(rng, &mut c, nslots);
+            c.push(0x55);
+        }
+        c.push(0x50);
+    }
+    c.push(0x00);
+    c
+}
+
+/// C03, the half after execution: the whole analysis halts.  One analyze() per (program, configuration) under a
+/// watchdog that never asks to stop but counts polls: running out of the poll budget means the analysis was
+/// still looping.  A process that dies (unbounded recursion) or hangs in an unpolled loop is seen by the driver.
+pub fn halt_run(o: &Opts) -> R<()> {
+    let seed: u64 = o.num("seed", 1);
+    let skip: usize = o.num("skip", 0);
+    let n: usize = o.num("programs", 300);
+    let budget: u64 = o.num("budget", 2_000_000u64);
+    let out = o.str("out")?;
+    let progress = o.str("progress")?;
+    let mut rng = StdRng::seed_from_u64(seed ^ 0xc03);
+    let mut cases: Vec<(String, Vec<u8>, Cfg)> = Vec::new();
+    for code in cyclic_programs() {
+        for _ in 0..2 {
+            cases.push(("crafted".into(), code.clone(), random_cfg(&mut rng)));
+        }
+    }
+    for i in 0..n {
+        let (fam, code): (&str, Vec<u8>) = match i % 4 {
+            0 | 1 => ("cyclic-dataflow", cyclic_dataflow(&mut rng)),
+            2 => ("control-flow", progen::any(&mut rng).code),
+            _ => ("idioms", crate::idioms::random_contract(&mut rng).1),
+        };
+        cases.push((fam.to_string(), code, random_cfg(&mut rng)));
+    }
+    let mut w = Ndjson::create(&out)?;
+    if skip == 0 {
+        w.put_now(&json!({"ev": "begin"}));
+    }
+    let mut fams = std::collections::BTreeMap::new();
+    for (i, (fam, code, cfg)) in cases.iter().enumerate().skip(skip) {
+        if let Ok(mut f) = std::fs::File::create(&progress) {
+            let _ = writeln!(f, "{}", json!({"index": i, "family": fam, "hex": hex::encode(code), "cfg": cfg.json()}));
+        }
+        let dog = ScriptedWatchdog::new(1, None, budget);
+        let dog2 = dog.clone();
+        let code2 = code.clone();
+        let cfg2 = cfg.clone();
+        let outcome = match guarded(move || sle::new(contract(&code2), cfg2.vm(), tc::Config::default(), dog2).analyze()) {
+            Err(p) => ("panic", p),
+            Ok(Err(e)) => ("error", format!("{e:?}").chars().take(120).collect()),
+            Ok(Ok(_)) => ("layout", String::new()),
+        };
+        w.put_now(&json!({"ev": "halt", "index": i, "family": fam, "hex": hex::encode(code), "cfg": cfg.json(),
+                          "outcome": outcome.0, "msg": outcome.1, "polls": dog.polls.get(), "budget": budget,
+                          "exhausted": dog.exhausted.get()}));
+        *fams.entry(fam.to_string()).or_insert(0usize) += 1;
+    }
+    w.finish();
+    let _ = std::fs::remove_file(&progress);
+    println!("{}", json!({"cases": cases.len(), "ran": cases.len() - skip.min(cases.len()), "families": fams}));
+    Ok(())
+}
+
 pub fn run(o: &Opts) -> R<()> {
     let seed: u64 = o.num("seed", 1);
     let skip: usize = o.num("skip", 0);
